@@ -3,7 +3,7 @@ package wmptsim
 import "verif/harness/sim"
 
 func init() {
-	for _, p := range []string{"C09", "C11", "C13"} {
+	for _, p := range []string{"C09", "C10", "C11", "C12", "C13"} {
 		p := p
 		sim.Register(&sim.Engine{
 			Prop:   p,
